@@ -46,7 +46,8 @@ REQUIRED_COUNTERS = ['history_decodes', 'fresh_reference_decodes',
                      'ordered_pairs_checked', 'syndrome_digests_compared',
                      'table_digests_compared', 'sweep_restored_comparisons',
                      'zero_after_history', 'sibling_decodes',
-                     'earlier_results_rechecked']
+                     'earlier_results_rechecked',
+                     'histories_with_trials_through_run_once']
 SHARD_TIMEOUT = {'quick': 900, 'thorough': 3600}
 EXHAUSTIVE = True
 EXHAUSTIVE_SCOPE = ('all ordered pairs of valid syndromes for the (decoder, '
@@ -434,6 +435,16 @@ def run_histories(task, out):
             for hi, s_int in enumerate(hist):
                 mon.decode(gf2.unpack(s_int, m).astype(dts[(h + hi) % 5]),
                            'history')
+            if h % 3 == 1:
+                # the decoder is lent to the simulation layer for a few
+                # trials at ANOTHER error rate, then used directly again
+                from panqec.simulation import run_once
+                other = 0.4 if task['rate'] < 0.2 else 0.02
+                with contextlib.redirect_stdout(io.StringIO()):
+                    for t in range(3):
+                        run_once(mon.code, mon.em, mon.dec, other,
+                                 rng=np.random.default_rng([h, t]))
+                out.count('histories_with_trials_through_run_once')
             if is_sweep:
                 # (i) without restore: validity is history independent
                 s_arr = gf2.unpack(s_last, m).astype('uint8')
